@@ -183,7 +183,10 @@ fn overflow_is_error(ts: Ts) {
     let a = Value::Timestamp(ts) + Value::Duration(d);
     cover!(a.is_err(), "unrepresentable sum reachable");
     cover!(a.is_ok(), "representable sum reachable");
+    let b = Value::Duration(d) + Value::Timestamp(ts);
+    check!(a.is_ok() == b.is_ok(), "t + d and d + t agree on representability");
     forget(a);
+    forget(b);
     let c = Value::Timestamp(ts) - Value::Duration(d);
     cover!(c.is_err(), "unrepresentable difference reachable");
     forget(c);
@@ -214,7 +217,7 @@ crate::harnesses! {
     #[kani::unwind(2)] c16_roundtrip_subday: "quick", "<Value as Add>::add (Timestamp,Duration), <Value as Sub>::sub (Timestamp,Duration) and (Timestamp,Timestamp)", "t within 2^17 s of 2024-03-01 (all nanos, offsets), |d| < 2^46 ns";
     #[kani::unwind(2)] c16_roundtrip_days: "quick", "timestamp +/- duration, timestamp - timestamp", "t within 2^10 s of 2000-02-29, d = k days, |k| <= 1500";
     #[kani::unwind(2)] c16_roundtrip_any_duration: "thorough", "timestamp +/- duration, timestamp - timestamp", "t = 1970-01-01T00:00:0{0,1} (all nanos, offsets), d: all i64 nanoseconds";
-    #[kani::unwind(2)] c16_overflow_at_max: "quick", "<Value as Add>::add (Timestamp,Duration), <Value as Sub>::sub (Timestamp,Duration)", "t = chrono MAX_UTC, d: every whole-second chrono duration; no panic, error when unrepresentable";
+    #[kani::unwind(2)] c16_overflow_at_max: "quick", "<Value as Add>::add (Timestamp,Duration) and (Duration,Timestamp), <Value as Sub>::sub (Timestamp,Duration)", "t = chrono MAX_UTC, d: every whole-second chrono duration; no panic, error when unrepresentable";
     #[kani::unwind(2)] c16_overflow_at_min: "quick", "timestamp +/- duration", "t = chrono MIN_UTC, d: every whole-second chrono duration";
     #[kani::unwind(2)] c16_overflow_at_epoch: "quick", "timestamp +/- duration", "t = 1970-01-01, d: every whole-second chrono duration";
 }
